@@ -547,6 +547,21 @@ func c20Dispatch(c *Ctx) {
 			if x, isNil, ok := nilAtom(info, at); ok && !isNil && (fieldSel(info, x, "internal/discovery.Entry", "PathError") || fieldSel(info, x, "internal/parser.ParseError", "Err")) {
 				hasErr = true
 			}
+			// `PathError != nil || Rule.Error.Err != nil`: every alternative is an error
+			if at.Truth && at.Tag == nil {
+				var allErr func(e ast.Expr) bool
+				allErr = func(e ast.Expr) bool {
+					e = ast.Unparen(e)
+					if be, ok := e.(*ast.BinaryExpr); ok && be.Op == token.LOR {
+						return allErr(be.X) && allErr(be.Y)
+					}
+					x, isNil, ok := nilAtom(info, Atom{E: e, Truth: true})
+					return ok && !isNil && (fieldSel(info, x, "internal/discovery.Entry", "PathError") || fieldSel(info, x, "internal/parser.ParseError", "Err"))
+				}
+				if be, ok := ast.Unparen(at.E).(*ast.BinaryExpr); ok && be.Op == token.LOR && allErr(be) {
+					hasErr = true
+				}
+			}
 		}
 		c.Check(removed && hasErr, "C20-R4", "checkRules:skip only removed entries with errors", b.Pos(), "guarded by State==Removed and an error", "an entry can be skipped without being both removed and erroneous")
 		return true
